@@ -144,9 +144,11 @@ class ResponseHandler(BaseProtocol, DataQueue[tuple[RawResponseMessage, StreamRe
                 self._payload_parser.feed_eof()
 
         uncompleted = None
+        body_pending = False
         if self._parser is not None:
             try:
                 uncompleted = self._parser.feed_eof()
+                body_pending = self._parser._payload_parser is not None
             except Exception as underlying_exc:
                 if self._payload is not None:
                     client_payload_exc_msg = (
@@ -180,7 +182,11 @@ class ResponseHandler(BaseProtocol, DataQueue[tuple[RawResponseMessage, StreamRe
             self.set_exception(reraised_exc, underlying_non_eof_exc)
 
         self._should_close = True
-        self._parser = None
+        if not body_pending:
+            self._parser = None
+        # else: feed_eof() stopped because the reader is full (flow control); keep
+        # the parser so that resume_reading() -> data_received(b"") delivers the
+        # rest of the already received body and its EOF instead of losing it.
         self._payload = None
         self._payload_parser = None
         self._reading_paused = False
